@@ -285,7 +285,7 @@ static void fire(struct fault *f) { f->fired = 1; g_fired++; }
  * or -1 with errno set when a fault makes the call fail.  *seq receives the
  * op index.  EINTR does not consume the index (the retry gets the same one).
  */
-static int gate_mut(const char *op, const char *path, long arg, long *seq) {
+static int gate_mut_x(const char *op, const char *path, long arg, long *seq, int eintr_ok) {
     struct fault *f = fault_for(0, g_mseq);
     if (f) {
         switch (f->kind) {
@@ -293,6 +293,9 @@ static int gate_mut(const char *op, const char *path, long arg, long *seq) {
             fire(f); trace('M', g_mseq, op, path, arg, -137, "KILL"); die137();
             break;
         case K_EINTR:
+            /* only calls that may legally return EINTR (open, ftruncate, fsync); for
+             * unlink/mkdir/rename/link/symlink/close the fault is a no-op */
+            if (!eintr_ok) { f->fired = 1; break; }
             fire(f); trace('M', g_mseq, op, path, arg, -EINTR, "EINTR"); errno = EINTR; return -1;
         case K_FAIL:
             fire(f); *seq = g_mseq++; trace('M', *seq, op, path, arg, -f->arg, "FAIL"); errno = (int)f->arg; return -1;
@@ -308,6 +311,11 @@ static int gate_mut(const char *op, const char *path, long arg, long *seq) {
     }
     *seq = g_mseq++;
     return 0;
+}
+
+static int gate_mut(const char *op, const char *path, long arg, long *seq) {
+    int eintr_ok = op[0] == 'o' /* open, openat */ || op[0] == 'c' && op[1] == 'r' /* creat */ || op[0] == 'f' /* ftruncate, fsync, fdatasync */ || op[0] == 'p' /* pwrite */;
+    return gate_mut_x(op, path, arg, seq, eintr_ok);
 }
 
 static long ret_trace(char cls, long seq, const char *op, const char *path, long arg, long r) {
